@@ -84,9 +84,10 @@ class Check:
                 print('KNOWN-FINDING: property=%s %s -- %s (%s:%s)' % (self.pid, key, kf[key].get('what', v['message']), v['file'], v['line']))
             else:
                 new.append(v)
-        os.makedirs(os.path.join(VERIF, 'replay', self.pid), exist_ok=True)
+        OUT = os.environ.get('VERIF_OUT_DIR') or VERIF   # scratch runs (self-tests, seed rechecks) keep /verif/evidence intact
+        os.makedirs(os.path.join(OUT, 'replay', self.pid), exist_ok=True)
         # stale replays of earlier runs are removed
-        rd = os.path.join(VERIF, 'replay', self.pid)
+        rd = os.path.join(OUT, 'replay', self.pid)
         for f in os.listdir(rd):
             if f.endswith('.json'):
                 os.unlink(os.path.join(rd, f))
@@ -144,8 +145,9 @@ class Check:
             'wall_s': round(time.time() - self.t0, 2),
             'violations': nviol,
         }
-        os.makedirs(os.path.join(VERIF, 'evidence'), exist_ok=True)
-        p = os.path.join(VERIF, 'evidence', self.pid + '.json')
+        OUT = os.environ.get('VERIF_OUT_DIR') or VERIF
+        os.makedirs(os.path.join(OUT, 'evidence'), exist_ok=True)
+        p = os.path.join(OUT, 'evidence', self.pid + '.json')
         with open(p + '.tmp', 'w') as fh:
             json.dump(ev, fh, indent=1, default=str)
         os.replace(p + '.tmp', p)
